@@ -117,7 +117,7 @@ func normSrc(s string) string {
 		lines = append(lines, l)
 	}
 	s = wsRe.ReplaceAllString(strings.Join(lines, " "), " ")
-	for _, p := range [][2]string{{", }", "}"}, {"{ ", "{"}, {" }", "}"}, {"( ", "("}, {" )", ")"}, {", )", ")"}} {
+	for _, p := range [][2]string{{", }", "}"}, {"{ ", "{"}, {" }", "}"}, {"( ", "("}, {" )", ")"}, {", )", ")"}, {",)", ")"}} {
 		s = strings.ReplaceAll(s, p[0], p[1])
 	}
 	return strings.TrimSpace(s)
